@@ -8,6 +8,7 @@ import Golib.Proof.C12Expand
 import Golib.Proof.C12Order
 import Golib.Model.C12PKV
 import Golib.Proof.C12ProgramsKV
+import Golib.Proof.C12DynamicKV
 import Golib.Gen.FactsC12
 
 namespace Golib.C12
@@ -293,6 +294,83 @@ example :
     let Q := seqExecP (fun t => (calls t).map pbody) (fun _ => (({} : Loc), [])) [] [0, 1, 0]
     Q.sh = [(1, 5)] ∧ (Q.loc 0).2.map (fun r => (r.val, r.ok)) = [(5, true), (0, false)] ∧
     (Q.loc 1).2.map (fun r => (r.val, r.ok)) = [(5, true)] ∧ Q.idx 0 = 2 := by
+  decide
+
+/-- `c12_atomic_dynamic` (programs as DECISION TREES): goroutine `t` chooses its next call by
+a function of its local state (`pol t l` = the body of the next call, `none` = stop; every
+chosen body well locked with exactly one critical section), so the control flow — which
+method comes next, whether there is a next call — may depend on the results of the earlier
+calls; `fuel t` bounds the number of calls (depth of the tree).  The machine is the generic
+machine plus the silent step `load` (start the chosen call).  In EVERY reachable
+configuration of EVERY schedule, with `Q` = the sequential history that performs, for each
+critical-section entry of `t` in entry order, the call `pol` chooses from `t`'s SEQUENTIAL
+local state:
+* whenever no goroutine is inside a write section, the shared state IS `Q`'s state;
+* a goroutine between calls (in particular a finished one) has exactly the local state —
+  all results, hence all the decisions it took — that it has in `Q`;
+* a goroutine never makes more calls than its fuel allows. -/
+theorem c12_atomic_dynamic {σ μ : Type} (pol : Policy σ μ) (s₀ : σ) (init : Nat → μ)
+    (fuel : Nat → Nat) (hp : ∀ t l b, pol t l = some b → CallOK b)
+    (d : DConf σ μ) (hr : DReach pol (DConf.init s₀ init fuel) d) :
+    ((∀ t, (d.c.th t).mode ≠ .w) → d.c.sh = (seqExecD pol init s₀ d.c.order).sh) ∧
+    (∀ t, (d.c.th t).rest = [] → (seqExecD pol init s₀ d.c.order).loc t = (d.c.th t).loc) ∧
+    (∀ t, d.fuel t ≤ fuel t) := by
+  have hi := DInv.reach pol init s₀ hp fuel hr
+  refine ⟨hi.shFree, fun t hdone => ?_, fun t => hr.fuel_le pol t⟩
+  obtain ⟨_, hcase⟩ := hi.thr t
+  rw [hdone] at hcase
+  rcases hcase with ⟨_, h1, _⟩ | ⟨_, hloc, _⟩
+  · exact absurd rfl (oneAcq_ne_nil (by simpa [evs] using h1))
+  · simpa [runActs] using hloc
+
+/-- `c12_realtime_order_dynamic`: also for decision-tree programs the entry log only grows —
+every entry made before a configuration precedes every entry made after it, so a call that
+returned before another was invoked comes first in the sequential history of
+`c12_atomic_dynamic` (linearizability). -/
+theorem c12_realtime_order_dynamic {σ μ : Type} (pol : Policy σ μ) (d₁ d₂ : DConf σ μ)
+    (hr : DReach pol d₁ d₂) (u i : Nat) (hu : d₁.c.order.count u < i)
+    (hu₂ : i ≤ d₂.c.order.count u) :
+    ∃ post, d₂.c.order = d₁.c.order ++ post ∧ i ≤ d₁.c.order.count u + post.count u ∧
+      0 < post.count u := by
+  obtain ⟨post, hpost⟩ := hr.order_prefix pol
+  refine ⟨post, hpost.symm, ?_, ?_⟩
+  · rw [← hpost, List.count_append] at hu₂; exact hu₂
+  · rw [← hpost, List.count_append] at hu₂; omega
+
+/-- SafeKV instance of `c12_atomic_dynamic`, with the step of the sequential history spelled
+out: the chosen call `cl` maps the current map `s` to `(seqCall cl s).1` and records
+`(seqCall cl s).2` — so `c12_body_spec` applies to every call of every decision tree. -/
+theorem c12_safekv_dynamic (next : Nat → List Loc → Option Call) (s₀ : KV) (init : Nat → PLoc)
+    (fuel : Nat → Nat) (d : DConf KV PLoc)
+    (hr : DReach (kvPolicy next) (DConf.init s₀ init fuel) d) :
+    ((∀ t, (d.c.th t).mode ≠ .w) →
+        d.c.sh = (seqExecD (kvPolicy next) init s₀ d.c.order).sh) ∧
+    (∀ t, (d.c.th t).rest = [] →
+        (seqExecD (kvPolicy next) init s₀ d.c.order).loc t = (d.c.th t).loc) ∧
+    (∀ (q : SeqSt KV PLoc) (t : Nat) (cl : Call), next t (q.loc t).2 = some cl →
+        seqStepD (kvPolicy next) q t =
+          { sh := (seqCall cl q.sh).1
+            loc := upd q.loc t ((seqCall cl q.sh).2, (seqCall cl q.sh).2 :: (q.loc t).2)
+            idx := upd q.idx t (q.idx t + 1) }) := by
+  have h := c12_atomic_dynamic (kvPolicy next) s₀ init fuel (fun t l b hb => by
+    simp only [kvPolicy, Option.map_eq_some_iff] at hb
+    obtain ⟨cl, _, rfl⟩ := hb
+    exact pbody_callOK cl) d hr
+  refine ⟨h.1, h.2.1, fun q t cl hcl => ?_⟩
+  simp only [seqStepD, kvPolicy, hcl, Option.map_some, runActs_pbody]
+
+/-- Non-vacuity (computed): every goroutine first calls `SetNx(1, t)`; the one that WON then
+calls `Set(2, 9)`, a loser calls `Get(1)` instead (control flow depends on the result).
+Entry order `[1, 0, 1, 0]`: goroutine 1 wins and sets key 2, goroutine 0 loses and reads 1. -/
+example :
+    let next : Nat → List Loc → Option Call := fun t hist =>
+      match hist with
+      | [] => some (.setNx 1 (Int.ofNat t))
+      | [r] => if r.ok then some (.get 1) else some (.set 2 9)
+      | _ => none
+    let Q := seqExecD (kvPolicy next) (fun _ => (({} : Loc), [])) [] [1, 0, 1, 0]
+    Q.sh = [(1, 1), (2, 9)] ∧ (Q.loc 0).2.map (fun r => (r.val, r.ok)) = [(1, true), (1, true)] ∧
+    (Q.loc 1).2.length = 2 ∧ Q.idx 0 = 2 := by
   decide
 
 /-- SafeKV instance of `c12_atomic`: any goroutines, each performing any SafeKV call
